@@ -687,7 +687,9 @@ func (w *Writer) AddIndex(r *Reader) (bool, error) {
 				}
 				w.hostGroups = append(w.hostGroups, hostGroup{
 					hostSize: rhg.hostSize,
-					hosts:    rhg.hosts,
+					// a copy: the reader's groups are windows into one array, appending to an adopted
+					// window would write into the reader's next group
+					hosts: append([]byte(nil), rhg.hosts...),
 				})
 				remap.hostRemap = make([]uint16, 0, rhg.hostCount)
 				for h := 0; h < rhg.hostCount; h++ {
